@@ -11,6 +11,7 @@ from __future__ import annotations
 
 import itertools
 
+from .. import core
 from ..core import Acc, worker
 from .. import docmodel as M
 from .. import impl as I
@@ -23,7 +24,7 @@ FORMS = ['Feature: x', 'Scenario: x', 'Examples:', 'Given x', '@t', '# c', '#lan
 RELS = ['less', 'equal', 'more']
 DELIMS = ['"""', '```']
 INDENTS = [0, 2, 5]
-MEDIA = ['', 'json', ' a b ', '"', '`x`']
+MEDIA = ['', 'json', ' a b ', '"', '`x`', '\\"\\"\\"', 'x=\\`\\`\\`;v']
 HOSTS = ['background', 'scenario', 'outline', 'rule']
 FOLLOW = ['eof', 'step', 'scenario', 'tags+scenario', 'examples']
 # (media, host, follower, eol) combinations: every value of every dimension appears, all pairs host x follower appear
@@ -184,6 +185,44 @@ def job_two(d1i, d2i):
     return acc
 
 
+@worker
+def job_close_indent(di):
+    """Opening and closing delimiter at different indentations (each 0..7), content lines shallower / equal / deeper than either, a step, a
+    scenario or the end of input after it: the reference AST (closing delimiter = a line whose trimmed text starts with the opening one)."""
+    from .. import ref as R
+    acc = Acc()
+    delim = DELIMS[di]
+    other = DELIMS[1 - di]
+    text = None
+    for oi in (0, 1, 2, 6):
+        for ci in range(0, 9):
+            for content in ([], ['x'], [' ' * oi + 'y', ' ' * ci + other, ' ' * (ci + 1) + 'z '], [' ' * max(oi, ci) + '\\' + '\\'.join(delim)]):
+                for tail in ('', '    And after\n', '  Scenario: next\n    * n\n', '\n'):
+                    for media in ('', 'json'):
+                        text = 'Feature: f\n  Background:\n    Given g\n' + ' ' * oi + delim + media + '\n' + ''.join(c + '\n' for c in content) + ' ' * ci + delim + '\n' + tail
+                        case = {'kind': 'text', 'text': text}
+                        acc.n += 1
+                        acc.validated += 1
+                        acc.nontrivial += 1
+                        r = R.reference(text, compile_=False)
+                        if r.status != 'ok':
+                            raise core.InternalError('family design: the reference rejects %r' % text)
+                        rd = dict(r.doc)
+                        rd.pop('uri', None)
+                        want = project(rd)
+                        acc.states.add((delim, oi, ci))
+                        for route, a in I.parse_routes(text, 'en', acc):
+                            if a[0] != 'ok':
+                                acc.violation('docstring-rejected', case, '%s: document whose closing delimiter is indented %d (opening %d) rejected: %s' % (route, ci, oi, a[1][:2]))
+                                break
+                            if project(a[1]) != want:
+                                p_, x, y = first_diff(project(a[1]), want)
+                                acc.violation('docstring-close', case, '%s: closing delimiter indented %d (opening %d): AST differs from the reference at %s' % (route, ci, oi, p_), observed=x, expected=y)
+                                break
+    acc.sample({'text': text})
+    return acc
+
+
 def T_(s):
     return ('text', s)
 
@@ -198,6 +237,7 @@ def run(ctx):
     ctx.level('content 1 line', [job_content.job(1, i, 'all') for i in range(nv)])
     ctx.level('content 2 lines', [job_content.job(2, i, 'quick' if ctx.quick else 'all') for i in range(nv)])
     ctx.level('two doc strings in one document', [job_two.job(a, b) for a in (0, 1) for b in (0, 1)])
+    ctx.level('closing delimiter at another indentation than the opening one', [job_close_indent.job(i) for i in (0, 1)])
     if not ctx.quick:
         ctx.level('content 3 lines', [job_content.job(3, i, 'quick') for i in range(nv)])
 
